@@ -454,3 +454,81 @@ def r4(ctx: Ctx) -> None:
         if not ok:
             ctx.report(fm.where, f"flags-dropped {ast.unparse(c_)[:80]}", "parse_yaml_module does not hand the module's (is_fixed, is_hard) to the rectangle reader", lineno=c_.lineno)
     ctx.require(n >= 3, "fewer rectangle-construction sites than confirmed")
+
+
+def _str_value(ctx: Ctx, f, e: ast.expr):
+    """the string a pattern expression denotes: a literal, a single-assignment local, or a module-level constant"""
+    from .common import resolve_local
+    e = resolve_local(f.node, e)
+    if isinstance(e, ast.Constant) and isinstance(e.value, str):
+        return e.value
+    if isinstance(e, ast.Name):
+        v = ctx.model.global_constant(f.module, e.id)
+        if isinstance(v, str):
+            return v
+    return None
+
+
+def _re_flags(e) -> int:
+    import re
+    if e is None:
+        return 0
+    fl = 0
+    for n in ast.walk(e):
+        if isinstance(n, ast.Attribute) and isinstance(n.value, ast.Name) and n.value.id == "re" and n.attr.isupper():
+            fl |= int(getattr(re, n.attr, 0))
+    return fl
+
+
+@rule("C05", "R5.identifier-language", "LAW(regex)",
+      "valid_identifier accepts exactly the ASCII identifiers: strings, matched in full, first character in [A-Za-z_], "
+      "the others in [A-Za-z0-9_] (the pattern literal is read with the regex parser, character class by character "
+      "class; nothing is matched)", floor=2)
+def r5(ctx: Ctx) -> None:
+    from framelint.regexlang import head_tail_classes, sample_points
+    from .common import UTILS, resolve_local
+    f = ctx.func(UTILS, "valid_identifier")
+    calls = [c for c in walk_own(f.node) if isinstance(c, ast.Call) and isinstance(c.func, ast.Attribute) and c.func.attr in ("fullmatch", "match", "search")]
+    if len(calls) != 1:
+        raise AnalysisError("valid_identifier: the one regular-expression test was not found")
+    c = calls[0]
+    pat = flags_e = None
+    if isinstance(c.func.value, ast.Name) and c.func.value.id == "re":
+        pat = _str_value(ctx, f, c.args[0]) if c.args else None
+        flags_e = c.args[2] if len(c.args) > 2 else next((k.value for k in c.keywords if k.arg == "flags"), None)
+    else:
+        # a compiled pattern: local or module-level  X = re.compile(P[, flags])
+        comp = resolve_local(f.node, c.func.value)
+        if isinstance(comp, ast.Name):
+            sts = f.module.global_assigns.get(comp.id, [])
+            comp = sts[0].value if len(sts) == 1 and isinstance(sts[0], (ast.Assign, ast.AnnAssign)) else None
+        if isinstance(comp, ast.Call) and call_name(comp) == "compile" and comp.args:
+            pat = _str_value(ctx, f, comp.args[0])
+            flags_e = comp.args[1] if len(comp.args) > 1 else next((k.value for k in comp.keywords if k.arg == "flags"), None)
+    if pat is None:
+        raise AnalysisError("valid_identifier: pattern literal not resolved")
+    how = c.func.attr
+    ctx.site(f.where, "identifier pattern", pattern=pat, matched_with=how)
+    ht = head_tail_classes(pat, _re_flags(flags_e))
+    ref = head_tail_classes("[A-Za-z_][A-Za-z0-9_]*")
+    anchored_end = how == "fullmatch" or pat.endswith("$") or pat.endswith("\\Z")
+    ok = ht is not None and how in ("fullmatch", "match") and anchored_end
+    diff = []
+    if ok:
+        for ch in sample_points():
+            if ht[0](ch) != ref[0](ch) or ht[1](ch) != ref[1](ch):
+                diff.append(ch)
+                if len(diff) >= 5:
+                    break
+        ok = not diff
+    if not ok:
+        ctx.report(f.where, f"identifier-language {pat!r}", "valid_identifier does not accept exactly the strings [A-Za-z_][A-Za-z0-9_]*: names outside the documented "
+                   "alphabet (or with a valid prefix only) are accepted, or valid ones refused", lineno=f.node.lineno,
+                   differs_on=[f"U+{ord(x):04X}" for x in diff])
+    # non-strings are refused before the pattern is applied
+    g = ctx.cfg(f)
+    node = [n for n in g.stmt_nodes() if n.kind == "stmt" and any(x is c for x in ast.walk(n.ast))]
+    ctx.site(f.where, "non-strings refused before matching")
+    isstr = ("c", ("g", "isinstance"), (("p", 0), ("g", "str")), ())
+    if not node or isstr not in g.facts_at(node[0].id):
+        ctx.report(f.where, "identifier-non-string", "valid_identifier applies the pattern to a value not known to be a string", lineno=f.node.lineno)
